@@ -384,4 +384,21 @@ def voxFactsOf (coreData tempAttr : List String) (assigns : List VoxAssign) : Vo
     clearsV := (assigns.filter (·.fields.contains "_values")).all (·.clears),
     gridIsTemp := tempAttr.contains "_grid" }
 
+
+/-! ### `VoxelNeuron.threshold` on voxel coordinates with per-voxel values (repaired, d242e0d)
+
+`keep = x.values >= threshold; x._values = x._values[keep]; x._data = x._data[keep]` – the SAME boolean mask is
+applied to both arrays. (Before the repair only `_data` was filtered and every later `.grid` raised.) -/
+
+/-- `arr[mask]` -/
+def applyMask {α} : List Bool → List α → List α
+  | true :: m, x :: xs => x :: applyMask m xs
+  | false :: m, _ :: xs => applyMask m xs
+  | _, _ => []
+
+/-- the threshold step as written: (voxels, values) ↦ (voxels[keep], values[keep]) -/
+def thresholdSparse {α} (t : Nat) (vox : List α) (vals : List Nat) : List α × List Nat :=
+  let keep := vals.map (fun v => decide (t ≤ v))
+  (applyMask keep vox, applyMask keep vals)
+
 end Navis.IoMeta
